@@ -120,6 +120,31 @@ def run(ctx):
                     if not good:
                         ctx.prop_fail('decoder returned a value violating the subtype constraint of %s' % name,
                                       {'decoder': cdc, 'type': name, 'bytes': data.hex()}, finding=fid if fid == 'F13' else None)
+    # constrained strings in every BER form (primitive, one or more segments, indefinite), untagged and under an
+    # EXPLICIT tag: the decoder assembles segments into a fresh value object before the type sees them
+    from pyasn1.type import tag as _tag, char as _char
+    def _seg(tagoct, parts, indef):
+        inner = b''.join(bytes([tagoct, len(p)]) + p for p in parts)
+        return bytes([tagoct | 0x20, 0x80]) + inner + b'\x00\x00' if indef else bytes([tagoct | 0x20, len(inner)]) + inner
+    for base, tagoct, mk in ((univ.OctetString(), 4, lambda n: b'x' * n), (_char.IA5String(), 22, lambda n: b'y' * n)):
+        for lo, hi in ((1, 3), (0, 0), (2, 2)):
+            spec0 = base.subtype(subtypeSpec=constraint.ValueSizeConstraint(lo, hi))
+            spec1 = base.subtype(subtypeSpec=constraint.ValueSizeConstraint(lo, hi), explicitTag=_tag.Tag(_tag.tagClassContext, _tag.tagFormatConstructed, 2))
+            for n in range(0, 7):
+                body = mk(n)
+                forms = [bytes([tagoct, n]) + body, _seg(4, [body], False), _seg(4, [body], True)]
+                if n >= 2:
+                    forms += [_seg(4, [body[:1], body[1:]], False), _seg(4, [body[:n // 2], b'', body[n // 2:]], True)]
+                for fi, f0 in enumerate(forms):
+                    # the outer identifier is the string's own tag (constructed bit as in the form), segments are OCTET STRINGs
+                    f = bytes([(f0[0] & 0x20) | tagoct]) + f0[1:]
+                    for spec, data in ((spec0, f), (spec1, bytes([0xa2, len(f)]) + f)):
+                        for cdc in ('BER', 'CER'):
+                            d = I.run_decode(cdc, data, asn1Spec=spec)
+                            ctx.case(('constrained-string', tagoct, lo, hi, n, fi, spec is spec1, cdc), True)
+                            if d[0] == 'ok' and not (lo <= len(d[1]) <= hi):
+                                ctx.prop_fail('decoder returned a string of %d octets under SIZE(%d..%d)' % (len(d[1]), lo, hi),
+                                              {'decoder': cdc, 'type': '%s SIZE(%d..%d)%s' % (type(base).__name__, lo, hi, ' [2] EXPLICIT' if spec is spec1 else ''), 'bytes': data.hex()})
     # time types with damaged / non-canonical text under each codec (finding F56 is the CER/DER half), and a
     # REAL whose exponent the encoder cannot write (F58); both were found by the proof of C10
     from pyasn1.type import useful
